@@ -75,13 +75,22 @@ def translate(ck):
     raises = bool(re.search(r"ThreadState::Interrupted\s*=>\s*\{\s*stop!\(", body)) and \
         bool(re.search(r"\.paused\s*\.load\(", body))
     breaks = len(re.findall(r"if let ThreadState::Interrupted = self\.synchronizer\.state\.state\.load\(\)\s*\{\s*break;", vm))
+    # ThreadStateController::interrupt must publish the state before the flag: a thread leaving a safepoint parks
+    # while the flag is set unless the state says Interrupted, and nothing unparks it after an interrupt (F45)
+    mi = re.search(r"pub fn interrupt\(&self\) \{(.*?)\n    \}\n", vm, re.S)
+    if not mi:
+        raise TieBroken("ThreadStateController::interrupt not found in vm.rs")
+    ib = re.sub(r"//[^\n]*", "", mi.group(1))
+    ps, ss = ib.find("self.paused"), ib.find("self.state.store(ThreadState::Interrupted)")
+    state_first = 0 <= ss < ps
     text = ("(* GENERATED by checks/c17.py from /repo — do not edit. *)\n"
             "Definition poll_at_dispatch_loop_head : bool := %s.\n"
             "Definition interrupted_arm_raises : bool := %s.\n"
             "Definition safepoint_exit_breaks_on_interrupt : nat := %d.\n"
-            "Definition poll_facts : bool := andb poll_at_dispatch_loop_head (andb interrupted_arm_raises (Nat.eqb safepoint_exit_breaks_on_interrupt 2)).\n"
+            "Definition interrupt_publishes_state_first : bool := %s.\n"
+            "Definition poll_facts : bool := andb poll_at_dispatch_loop_head (andb interrupted_arm_raises (andb (Nat.eqb safepoint_exit_breaks_on_interrupt 2) interrupt_publishes_state_first)).\n"
             "Lemma poll_facts_ok : poll_facts = true. Proof. reflexivity. Qed.\n"
-            % ("true" if head else "false", "true" if raises else "false", breaks))
+            % ("true" if head else "false", "true" if raises else "false", breaks, "true" if state_first else "false"))
     ck.translate("Gen_C17", text)
     return head, raises, breaks
 
